@@ -57,9 +57,12 @@ func (h *harness) genEncCfg(qs []vh.GQuad) encCfg {
 	return c
 }
 
-// canonValue renders a JSON tree insensitive to member order and to the order of array elements,
-// numbers by value.
-func canonValue(v *JV) string {
+// canonValue renders a JSON tree insensitive to member order, numbers by value. Array elements are
+// compared in order unless sortArrays is set (buffered mode sorts them by their serialisation); the
+// items of the top-level @graph array are always compared as a set (their order is Go's map order).
+func canonValue(v *JV, sortArrays bool) string { return canonValueAt(v, sortArrays, true) }
+
+func canonValueAt(v *JV, sortArrays, top bool) string {
 	switch v.kind {
 	case jInt:
 		return "#" + strconv.FormatFloat(float64(v.i), 'g', -1, 64)
@@ -72,14 +75,25 @@ func canonValue(v *JV) string {
 	case jArr:
 		parts := make([]string, len(v.xs))
 		for i, x := range v.xs {
-			parts[i] = canonValue(x)
+			parts[i] = canonValueAt(x, sortArrays, false)
 		}
-		sort.Strings(parts)
+		if sortArrays {
+			sort.Strings(parts)
+		}
 		return "[" + strings.Join(parts, ",") + "]"
 	case jObj:
 		parts := make([]string, len(v.ms))
 		for i, m := range v.ms {
-			parts[i] = strconv.Quote(m.k) + ":" + canonValue(m.v)
+			if top && m.k == "@graph" && m.v.kind == jArr {
+				items := make([]string, len(m.v.xs))
+				for j, x := range m.v.xs {
+					items[j] = canonValueAt(x, sortArrays, false)
+				}
+				sort.Strings(items)
+				parts[i] = strconv.Quote(m.k) + ":[" + strings.Join(items, ",") + "]"
+				continue
+			}
+			parts[i] = strconv.Quote(m.k) + ":" + canonValueAt(m.v, sortArrays, false)
 		}
 		sort.Strings(parts)
 		return "{" + strings.Join(parts, ",") + "}"
@@ -213,24 +227,65 @@ func (h *harness) encodeOne(ds dataset, cfg encCfg, mode11 bool, docBase string)
 		h.rep.Count("enc-doc:@context")
 	}
 
-	// ---- T3: the model's document
-	hint := rootHint(gdoc)
+	// ---- T3: the model's document. Which once-referenced blank nodes become resources in the second
+	// pass of ExportResources depends on Go's map iteration order (a parameter of the model): the order
+	// is reconstructed from the implementation's document (rootOrder), and if that order does not
+	// reproduce the document every other order of those roots is tried (bounded) before a disagreement
+	// is reported. Datasets without such roots have exactly one admissible order.
+	roots := rootOrder(gdoc, ds.quads)
+	hint := hintTok(roots)
 	line := "jl.encode " + cfg.wire() + " " + hint + " " + gquadsWire(ds.quads)
-	h.add(line, func(model string) {
+	h.stable("jl.encode " + cfg.wire() + " " + gquadsWire(ds.quads))
+	same := func(model string) (bool, *JV, string) {
 		if !strings.HasPrefix(model, "ok:") {
-			h.rep.Add(vh.Case{Kind: "disagreement", Op: line, Model: model, Go: string(res.doc), Detail: "driver: " + desc})
-			return
+			return false, nil, "driver: " + model
 		}
 		mdoc, err := parseWire(model[3:])
 		if err != nil {
-			h.rep.Add(vh.Case{Kind: "disagreement", Op: line, Model: model, Detail: "model document unreadable: " + err.Error()})
+			return false, nil, "model document unreadable: " + err.Error()
+		}
+		return canonValue(mdoc, cfg.buffered) == canonValue(gdoc, cfg.buffered), mdoc, ""
+	}
+	report := func(mdoc *JV, why string) {
+		mtext := why
+		if mdoc != nil {
+			mtext = string(mdoc.text())
+		}
+		if cfg.base != "" && baseOutsideDomain(cfg.base) && h.knownCase("jsonld-resolver-deviates-from-rfc3986", desc+" model="+mtext) {
 			return
 		}
-		if canonValue(mdoc) != canonValue(gdoc) {
-			if cfg.base != "" && baseOutsideDomain(cfg.base) && h.knownCase("jsonld-resolver-deviates-from-rfc3986", desc+" model="+string(mdoc.text())) {
-				return
+		h.rep.Add(vh.Case{Kind: "disagreement", Op: line, Go: string(gdoc.text()), Model: mtext, Detail: "encoder model differs from the implementation (for every admissible iteration order) — " + desc})
+	}
+	h.add(line, func(model string) {
+		ok, mdoc, why := same(model)
+		if ok {
+			if len(roots) > 1 {
+				h.rep.Count("encode:second-pass-order:reconstructed")
 			}
-			h.rep.Add(vh.Case{Kind: "disagreement", Op: line, Go: string(gdoc.text()), Model: string(mdoc.text()), Detail: "encoder model differs from the implementation — " + desc})
+			return
+		}
+		perms := permutations(roots, 120)
+		if len(perms) <= 1 {
+			report(mdoc, why)
+			return
+		}
+		// further rounds: all other orders of the second-pass roots
+		left, found := len(perms), false
+		for _, p := range perms {
+			pl := "jl.encode " + cfg.wire() + " " + hintTok(p) + " " + gquadsWire(ds.quads)
+			h.add(pl, func(m2 string) {
+				if ok2, _, _ := same(m2); ok2 {
+					found = true
+				}
+				left--
+				if left == 0 {
+					if found {
+						h.rep.Count("encode:second-pass-order:found-by-enumeration")
+					} else {
+						report(mdoc, why)
+					}
+				}
+			})
 		}
 	})
 
@@ -410,24 +465,130 @@ func schemeClashGo(cfg encCfg, qs []vh.GQuad) bool {
 	return false
 }
 
-// rootHint lists the blank node labels of the top-level node objects of the implementation's document:
-// which node of a cycle of once-referenced blank nodes becomes a resource depends on Go's map iteration
-// order, a parameter of the model (second pass of ExportResources); the model tries these first.
-func rootHint(doc *JV) string {
+// rootOrder reconstructs the order in which the second pass of ExportResources visited the
+// once-referenced blank nodes that became resources. Such a node r that is referenced (by a plain
+// {"@id": "_:r"}) inside the resource of another such node r' was visited before r' - otherwise it
+// would have been inlined there. Nodes unrelated by this rule lie in different components and their
+// relative order does not matter; ties are broken by label so that the result does not depend on the
+// order of the document's items (buffered mode sorts them, map order otherwise).
+func rootOrder(doc *JV, qs []vh.GQuad) []string {
+	refs := map[int]int{}
+	for _, q := range qs {
+		if q.G == nil && q.O.Kind == vh.KBNode {
+			refs[q.O.BNode]++
+		}
+	}
+	once := map[string]bool{}
+	for b, n := range refs {
+		if n == 1 {
+			once[labelOf(b)] = true
+		}
+	}
 	var items []*JV
 	if g := doc.get("@graph"); g != nil && g.kind == jArr && doc.get("@id") == nil {
 		items = g.xs
 	} else {
 		items = []*JV{doc}
 	}
-	var hs []string
+	isRoot := map[string]bool{}
+	var roots []string
 	for _, it := range items {
-		if id := it.get("@id"); id != nil && id.kind == jStr && strings.HasPrefix(id.s, "_:") {
-			hs = append(hs, hex.EncodeToString([]byte(id.s[2:])))
+		if id := it.get("@id"); id != nil && id.kind == jStr && strings.HasPrefix(id.s, "_:") && once[id.s[2:]] {
+			isRoot[id.s[2:]] = true
+			roots = append(roots, id.s[2:])
 		}
 	}
-	if len(hs) == 0 {
+	sort.Strings(roots)
+	// before[r'] = roots referenced inside the resource of r'
+	before := map[string]map[string]bool{}
+	var walk func(v *JV, owner string, topLevel bool)
+	walk = func(v *JV, owner string, topLevel bool) {
+		switch v.kind {
+		case jArr:
+			for _, x := range v.xs {
+				walk(x, owner, false)
+			}
+		case jObj:
+			for _, m := range v.ms {
+				if m.k == "@id" && !topLevel && m.v.kind == jStr && strings.HasPrefix(m.v.s, "_:") {
+					if r := m.v.s[2:]; isRoot[r] && r != owner {
+						if before[owner] == nil {
+							before[owner] = map[string]bool{}
+						}
+						before[owner][r] = true
+					}
+				}
+				walk(m.v, owner, false)
+			}
+		}
+	}
+	for _, it := range items {
+		if id := it.get("@id"); id != nil && id.kind == jStr && strings.HasPrefix(id.s, "_:") && isRoot[id.s[2:]] {
+			walk(it, id.s[2:], true)
+		}
+	}
+	// Kahn's algorithm, smallest label first
+	var out []string
+	done := map[string]bool{}
+	for len(out) < len(roots) {
+		progressed := false
+		for _, r := range roots {
+			if done[r] {
+				continue
+			}
+			ready := true
+			for p := range before[r] {
+				if !done[p] {
+					ready = false
+				}
+			}
+			if ready {
+				out = append(out, r)
+				done[r] = true
+				progressed = true
+				break
+			}
+		}
+		if !progressed { // cannot happen for a document of ExportResources; keep the rest in label order
+			for _, r := range roots {
+				if !done[r] {
+					out = append(out, r)
+					done[r] = true
+				}
+			}
+		}
+	}
+	return out
+}
+
+func hintTok(roots []string) string {
+	if len(roots) == 0 {
 		return "-"
 	}
+	hs := make([]string, len(roots))
+	for i, r := range roots {
+		hs[i] = hex.EncodeToString([]byte(r))
+	}
 	return strings.Join(hs, ";")
+}
+
+// permutations lists the orders of xs in lexicographic order of positions, at most max of them.
+func permutations(xs []string, max int) [][]string {
+	var out [][]string
+	var rec func(cur []string, rest []string)
+	rec = func(cur []string, rest []string) {
+		if len(out) >= max {
+			return
+		}
+		if len(rest) == 0 {
+			out = append(out, append([]string(nil), cur...))
+			return
+		}
+		for i := range rest {
+			next := append(append([]string(nil), rest[:i]...), rest[i+1:]...)
+			rec(append(cur, rest[i]), next)
+		}
+	}
+	rec(nil, xs)
+	return out
 }
